@@ -83,7 +83,7 @@ class Spelling:
         items = list(items)
         if len(items) > 1:
             self.nopts[kind] = max(self.nopts.get(kind, 0), len(items))
-        if self.mode == 'canon' and kind not in self.force:
+        if self.mode == 'canon' and kind not in self.force and kind not in self.rand_kinds:
             return items
         if kind in self.force:
             k = self.force[kind] % max(1, len(items))
